@@ -28,6 +28,8 @@ func TestFamily(t *testing.T) {
 		scs = beatScenarios(seed, EnvInt("VERIF_NRANDOM", 40))
 	case "flow", "life", "upg", "poll":
 		scs = append(replayFamily(behs), scriptFamily(fam, seed, EnvInt("VERIF_NRANDOM", 40))...)
+	case "grace":
+		scs = graceFamily()
 	case "reent":
 		scs = reentFamily()
 	case "limit":
